@@ -332,6 +332,13 @@ def step (st : St) (line : String) : St × String :=
     match unhexList l with
     | some l => ({ st with R := st.R ++ l }, "ok " ++ digList (st.R ++ l))
     | none => (st, "bad-op")
+  | ["sh", "wrap", a, z] =>
+    match a.toNat?, z.toNat? with
+    | some a, some z =>
+      match reservedPaddingShares a, tailPaddingShares z with
+      | .ok pa, .ok pz => let l := pa ++ st.R ++ pz; ({ st with R := l }, "ok " ++ digList l)
+      | _, _ => (st, "err")
+    | _, _ => (st, "bad-op")
   | ["sh", "sub", lo, hi] =>
     match lo.toNat?, hi.toNat? with
     | some lo, some hi =>
@@ -528,6 +535,7 @@ partial def loop (hin hout : IO.FS.Stream) (st : St) : IO Unit := do
   if line.isEmpty then return ()
   let (st', out) := step st line
   hout.putStrLn out
+  hout.flush
   loop hin hout st'
 
 end Driver
